@@ -138,7 +138,7 @@ def register(reg):
 
     def rely_streams(it, st, old):
         eng = it.eng
-        oa = old.get("NS.open", eng.initial_array("NS.open", BoolS))
+        oa = eng.old_arr(old, "NS.open", BoolS)
         na = eng.heap_arr(st, "NS.open", BoolS)
         for s in st.ghost.get("streams_of_interest", []):
             eng.assume(st, z3.Implies(z3.Not(z3.Select(oa, s)), z3.Not(z3.Select(na, s))))
@@ -243,14 +243,24 @@ def register(reg):
             eng = it.eng
             if getattr(self, "is_async", False):
                 it.suspend(st, "body-iter")
-            more = eng.choose(st, 2, "body-iter", ["chunk", "exhausted"]) == 0
-            if not more:
+            # pulling from a caller-supplied iterator consumes it (ghost, for transparent re-sends)
+            eng.heap_write(st, VRef(ref_of_val(self.v.t), "pyvc.Body"), "Body.consumed", VBool(True))
+            raises = list(getattr(it.contract, "opaque_iter_raises", []) or [])
+            if eng.tree != "async" or st.shield > 0:
+                raises = [r for r in raises if r != "Cancelled"]
+            names = ["chunk", "exhausted"] + [r.rsplit(".", 1)[-1] for r in raises]
+            k = eng.choose(st, len(names), "body-iter", names)
+            if k == 1:
                 return None
+            if k > 1:
+                eng.raise_(st, raises[k - 2], tag={"from": "inner-iterator"})
             x = eng.fresh(st, "bytes", "chunk")
             it.emit(st, "iter.next", None, source=self.v, value=x)
             return x
 
     reg.iter_by_class["val"] = OpaqueIter
+    reg.ext_class("pyvc.Body")
+    reg.fields("pyvc.Body", "Body", ghost=["consumed"], shared=["consumed"], consumed="bool")
 
 
 def stream_of_interest(st, s):
